@@ -4,8 +4,8 @@
    Layout/BlockFlow.v (a port of /repo/html/layout blocks.go, percentages.go,
    min_max.go); Check/C10.v ties the float32 instance of the same definitions to
    /repo, bit for bit, on every run.  The specification is Layout/Css21BlockSpec.v. *)
-From Verif Require Import Base.F32 Layout.BlockFlow Layout.Css21BlockSpec Layout.BlockProofs Layout.BlockVProofs.
-From Coq Require Import QArith Qminmax List Bool.
+From Verif Require Import Base.F32 Layout.BlockFlow Layout.Css21BlockSpec Layout.BlockProofs Layout.BlockVProofs Layout.BlockMarginMore.
+From Coq Require Import QArith Qminmax List Bool Permutation.
 Import ListNotations.
 Open Scope Q_scope.
 
@@ -191,3 +191,32 @@ Proof.
            auto_height_doc cby _ (vertical_ok_on_domain cbx cby cbw cbh root HD)).
 Qed.
 Print Assumptions C10_auto_height_spec.
+
+(* ---------------------------------------------------------------- algebra of collapsing
+   (Layout/BlockMarginMore.v; unbounded, about collapseMargin's exact-rational model) *)
+
+(* Merging two adjoining margin sets: the collapsed margin of the union is computed from the
+   parts (largest of the two positive maxima + most negative of the two negative minima). *)
+Theorem C10_collapse_margin_app : forall a b,
+  collapse_margin exactQ (a ++ b) ==
+  Qmax (maxpos a) (maxpos b) + Qmin (minneg a) (minneg b).
+Proof. exact collapse_margin_app. Qed.
+Print Assumptions C10_collapse_margin_app.
+
+(* The collapsed margin lies between the most negative and the largest positive margin. *)
+Theorem C10_collapse_margin_bounds : forall l,
+  minneg l <= collapse_margin exactQ l <= maxpos l.
+Proof. exact collapse_margin_bounds. Qed.
+Print Assumptions C10_collapse_margin_bounds.
+
+(* The collapsed margin does not depend on the order of the adjoining margins. *)
+Theorem C10_collapse_margin_perm : forall l l', Permutation l l' ->
+  collapse_margin exactQ l == collapse_margin exactQ l'.
+Proof. exact collapse_margin_perm. Qed.
+Print Assumptions C10_collapse_margin_perm.
+
+(* A zero margin anywhere in the adjoining set is neutral. *)
+Theorem C10_collapse_margin_zero_neutral : forall a b,
+  collapse_margin exactQ (a ++ 0 :: b) == collapse_margin exactQ (a ++ b).
+Proof. exact collapse_margin_zero_neutral. Qed.
+Print Assumptions C10_collapse_margin_zero_neutral.
